@@ -124,18 +124,23 @@ CLAIMS = {
              "every pair of copies i, j and every translate (n,m) in Z^2 (not a copy with itself) either the centres are more "
              "than 2R apart or the pair predicate was evaluated on exactly that pair and said no - the shell count "
              "ceil(2R/(sin(angle) min(a,b))) the code computes is proved sufficient.  For circle and trimer shapes this is lifted "
-             "to the plane: no point is interior to two copies of the tiling.  For polygons the last step needs the "
-             "completeness of the polygon pair test (unproved; see C12), so the polygon claim is partial.  The monitor "
+             "to the plane: no point is interior to two copies of the tiling.  For convex polygon shapes "
+             "(C01_scored_convex_polygon_packing, using the completeness theorem of C12): two placed copies that are closed convex "
+             "polygons and share an interior point are more than 2R apart or one has all its vertices strictly inside the other "
+             "(that congruent copies cannot nest is not proved).  The monitor "
              "searches all generated states (flat cells, copies near opposite faces, aligned/clamped states, optimiser outputs) "
              "with an independent separating-axis lattice oracle over one more shell than needed.",
         note=GEOM_NOTE),
     "C12": dict(
         engine="geom", design_ref="DESIGN.md section 4 C12",
-        technique="Coq proofs over the reals (field/nra) for soundness, exactness (discs) and symmetry; completeness for polygons NOT proved (partial) + pair engine with separating-axis oracle",
+        technique="Coq proofs over the reals (field/nra, first-exit induction over the edge list, cyclic walk) for soundness, exactness (discs), completeness for convex polygons and symmetry + pair engine with separating-axis oracle",
         text="Theorems (reals): a reported segment (hence polygon) intersection is a common point of two closed edges, so never "
              "yes for separated polygons; the disc test and the disc-molecule test are exact (yes iff the open discs share a "
-             "point); all tests are symmetric in their arguments.  Not proved: completeness for overlapping convex polygons and "
-             "rigid-motion invariance - and in binary64 both fail at exactly aligned configurations: known findings D12 "
+             "point); all tests are symmetric in their arguments.  Completeness for polygons (C12_convex_overlap_detected): two closed "
+             "convex polygons with a common interior point, neither with all vertices strictly inside the other, have an edge pair "
+             "meeting transversally within both parameter ranges, so the test says yes (degenerate vertex-on-edge contacts included).  "
+             "Rigid-motion invariance follows for these exact answers but is not a separate theorem - and in binary64 completeness "
+             "and invariance fail at exactly aligned configurations: known findings D12 "
              "(collinear disjoint edges reported as intersecting) and D13 (copies displaced along an edge direction reported "
              "as not intersecting after a common rigid motion), found by this check's pair stream and classified by the harness.",
         note=GEOM_NOTE + "  The oracle is binary64 separating-axis arithmetic with a 1e-9 margin, not exact arithmetic."),
